@@ -175,6 +175,12 @@ func PropC07(c *vs.Case, f Factory, o RolloutOpts) error {
 // PropC08: a rolling update of healthy children always completes and cleans up.
 func PropC08(c *vs.Case, f Factory, o RolloutOpts) error {
 	scn := NewRolloutScn(c, o)
+	twoKinds := false
+	for _, ch := range scn.Cfg.Children {
+		if ch.Resource == "gadgets" {
+			twoKinds = true // the step model only knows one rolling kind: liveness rules only
+		}
+	}
 	clusterParent := c.Prob(1, 10)
 	if clusterParent {
 		// the quantifier includes cluster-scoped parents
@@ -231,7 +237,7 @@ func PropC08(c *vs.Case, f Factory, o RolloutOpts) error {
 			return t, withTrace(vs.Violf("C08/sync-error", "sync failed under a fault-free, fair environment: %v", t.Err), t)
 		}
 		// never wait on a child that exists, is up to date and passes its checks
-		if cond := condOf(env.Parent(), "Updated"); cond != nil && cond["reason"] == "RolloutWaiting" && model.Reason != "RolloutWaiting" {
+		if cond := condOf(env.Parent(), "Updated"); !twoKinds && cond != nil && cond["reason"] == "RolloutWaiting" && model.Reason != "RolloutWaiting" {
 			return t, withTrace(vs.Violf("C08/waits-on-healthy-child", "parent reports RolloutWaiting (%v) although every child on the latest revision exists, is up to date and healthy (model: %s)", cond["message"], model.Reason), t)
 		}
 		return t, nil
@@ -279,10 +285,10 @@ func PropC08(c *vs.Case, f Factory, o RolloutOpts) error {
 	parent := env.Parent()
 	for _, d := range scn.Prog.DesiredAll(env.W.Sim, parent) {
 		want := env.NormalizeDesired(d)
-		if want["kind"] != "Widget" {
+		if want["kind"] != "Widget" && want["kind"] != "Gadget" {
 			continue
 		}
-		live := env.W.Sim.Get("widgets", "ns1", metaStr(want, "name"))
+		live := env.W.Sim.Get(env.W.Sim.DefByKind(want["apiVersion"].(string), want["kind"].(string)).Resource, "ns1", metaStr(want, "name"))
 		if live == nil {
 			return withTrace(vs.Violf("C08/rollout-stalled", "after %d fair syncs child %s does not exist", bound, metaStr(want, "name")), last)
 		}
